@@ -130,6 +130,30 @@ impl Property for C01 {
                     }
                     (Ok(()), None) => {}
                 }
+                // the decision function itself: for every room the caller's instance knows, the code's
+                // decisions at the operation date for EVERY identity equal the model's over the same entries
+                {
+                    let now = Clock::get();
+                    let keys = w.keys();
+                    let ents = ["app.Item", "app.Note", "app.Unlisted"];
+                    for r in w.rooms.clone() {
+                        if let Some(room) = w.peers[step.by].room(r.id).await {
+                            let model = dv::rights::RoomModel::from_room(&room);
+                            let mut dates = vec![now];
+                            dates.extend(model.dates());
+                            let code = dv::rights::code_matrix(&room, &keys, &ents, &dates);
+                            let mine = model.matrix(&keys, &ents, &dates);
+                            o.count("decision-points-compared", code.len() as u64);
+                            if let Some((c, m)) = code.iter().zip(mine.iter()).find(|(c, m)| c != m) {
+                                let what = if c.3 != m.3 { "is-admin" } else if c.4 != m.4 { "is-member" } else if c.5 != m.5 { "can-own" } else { "can-all" };
+                                let sig = format!("decision-differs-from-model:{}", what);
+                                if seen.insert(sig.clone()) {
+                                    o.violation(sig, format!("step {}: room {} on id{}: code {:?} model {:?}", i, r.id64, step.by, c, m));
+                                }
+                            }
+                        }
+                    }
+                }
                 if step.kind.contains("foreign") || step.kind.contains("nested") || step.kind.starts_with("move") {
                     interesting = true;
                 }
